@@ -57,3 +57,31 @@ class GradPath:
 
     def sites(self):
         return sorted({f"{e['op']}@{e['site']}" for e in self.events})
+
+
+def cast_monitor():
+    r"""Torch function mode which counts float32 tensors that require grad while an operation is evaluated.
+
+    With float64 leaves, any such tensor means that the differentiable path is evaluated in float32 somewhere
+    (e.g. ``grid_sample`` casts the data to the dtype of ``Grid.coords()``): finite differences then need float32
+    step sizes. Observed directly on the running code rather than inferred from the noise of the result.
+    """
+    import torch
+    from torch.overrides import TorchFunctionMode
+
+    class CastMonitor(TorchFunctionMode):
+        def __init__(self):
+            super().__init__()
+            self.float32_grad_tensors = 0
+            self.first = None
+
+        def __torch_function__(self, func, types, args=(), kwargs=None):
+            out = func(*args, **(kwargs or {}))
+            for r in out if isinstance(out, (tuple, list)) else (out,):
+                if isinstance(r, torch.Tensor) and r.dtype == torch.float32 and r.requires_grad:
+                    self.float32_grad_tensors += 1
+                    if self.first is None:
+                        self.first = getattr(func, "__name__", str(func))
+            return out
+
+    return CastMonitor()
